@@ -398,6 +398,40 @@ pub fn solo_main(def: &PropDef, file: &Path) -> i32 {
         }
     };
     let case = if v.get("case").is_some() && v.get("property").is_some() { v["case"].clone() } else { v };
+    // a scenario of the property's deterministic `extra` step: its replay is that step again
+    if case.get("scenario").is_some() || case.get("note").is_some() {
+        let extra = match def.extra {
+            Some(x) => x,
+            None => {
+                println!("SOLO-ERROR scenario case but the property has no scenario step");
+                return 2;
+            }
+        };
+        std::env::set_var("VERIF_SCENARIOS_ONLY", "1");
+        let ctx = Ctx { id: def.id.to_string(), tier: Tier::Quick, seed: 1, worker: 0, nworkers: 1, cases: 1, dump_index: None, dump_to: None };
+        let mut ev = json!({"coverage": {}});
+        return match extra(&ctx, &mut ev) {
+            None => {
+                println!("SOLO-PASS");
+                0
+            }
+            Some(v) if v.key.starts_with("harness|") => {
+                println!("SOLO-ERROR {}: {}", v.key, v.detail);
+                2
+            }
+            Some(v) => {
+                if Known::load().lookup(def.id, &v.key).is_some() {
+                    println!("SOLO-KNOWN {}", v.key);
+                    return 0;
+                }
+                println!("SOLO-FAIL {}", json!({"key": v.key, "detail": v.detail}));
+                for t in v.trace.iter() {
+                    println!("  {}", t);
+                }
+                1
+            }
+        };
+    }
     match (def.solo)(&case) {
         Err(e) => {
             println!("SOLO-ERROR {}", e);
